@@ -1890,7 +1890,7 @@ func runC09(c *Ctx) {
 	c.expect("C09.e", 183)
 	c.expect("C09.f", 200) // 6 modifiers + combinations + 95 ASCII keys + 5 other scripts + every reference special key
 	c.expect("C09.g", 13)
-	c.expect("C09.h", 150) // every non-graphic reference key + 26 letters + 7 documented forgiving cases
+	c.expect("C09.h", 155) // every non-graphic reference key + 26 letters + 7 documented forgiving cases
 
 	pk := c.P.Pkg("vaxis")
 	if pk == nil {
@@ -4208,6 +4208,21 @@ func (e *c09env) ruleH() {
 			return e.decode(csi('u', []int{int(r), int(R)}, []int{int(o|c09Shift) + 1}))
 		}
 		neg(fmt.Sprintf("shift/not forgiven for letter %q", r), int64(r), plain, shifted)
+	}
+	// letters of scripts without case (Hebrew, Arabic, kana, Thai, CJK): letters all the same, so Shift is
+	// not forgiven for them either (Shift+ש types a different character on a Hebrew layout)
+	for _, r := range []rune{0x05E9, 0x0639, 0x3042, 0x0E01, 0x4E2D} {
+		r := r
+		plain := func(o int64) (c09Key, string) {
+			if o == 0 {
+				return e.decode(c09Seq{kind: "print", text: string(r)})
+			}
+			return e.decode(csi('u', []int{int(r)}, []int{int(o) + 1}))
+		}
+		shifted := func(o int64) (c09Key, string) {
+			return e.decode(csi('u', []int{int(r)}, []int{int(o|c09Shift) + 1}))
+		}
+		neg(fmt.Sprintf("shift/not forgiven for caseless letter U+%04X", r), int64(r), plain, shifted)
 	}
 	// documented forgiving cases must keep matching
 	pcase := func(name string, s c09Seq, bindKey, mods int64) {
